@@ -3,7 +3,7 @@ from props import _graph
 from props.C05 import finish_obligations
 from vlib import run as vrun, build
 
-MODS = ["PrimitivModel.Props.C06"]
+MODS = ["PrimitivModel.Props.C06", "PrimitivModel.Props.Findings.C06Blocked"]
 
 BITS = ["80000000", "7fc00001", "00000001", "ffc12345", "40a00000", "00000000", "80000001", "7f800000"]
 
@@ -71,5 +71,6 @@ def run(chk):
     from props.C01 import grad_oracle
     grad_oracle(chk, 2 if chk.tier == "quick" else 20)
     finish_obligations(chk)
+    chk.stated_not_proved += ["Primitiv.C06.blocked_paths_untouched_full (false on this tree: its negation is proved with a witness in Props/Findings/C06Blocked.lean; known finding blocked-path-zero-add)"]
     chk.trusted += ["modelled, not verified: Graph::backward is hand-modelled in Lean (Model/Graph.lean) and tied to graph.cc by the correspondence run",
                     "bit-level effects of adding an exact zero (-0.0 + 0.0, NaN) are outside the theorems (a ring has no signed zero); they are observed only by the bit probes on the implementation"]
